@@ -206,4 +206,92 @@ theorem tie_SendT (W : Net.World ω) (E : Engine σ) (buf : Bytes) (fuel : Nat) 
     cases hl : s'.g.lastError <;> cases hi : E.initFinished s'.e <;>
       simp [resOfOut, Gen.M.pure, Gen.M.bind, CfgN, Cfg.current, codeOf, hl, hi, setLastError, errOf]
 
+/-! ### the driver-mode entry points ("we have been deemed readable / writable"), relative to the retry loops -/
+
+/-- the state after the generated prefix `remainingTime = zeroTimeout; isReadable = true; if(lastError == WANT_READ) lastError = NONE` -/
+theorem prepReadable_eq (g : Glue) (e : σ) (ww : ω) :
+    (prepReadable ⟨g, e, ww⟩ : St σ ω) =
+      ⟨{ g with remainingTime := 0, isReadable := true, lastError := if g.lastError = .wantRead then .none else g.lastError }, e, ww⟩ := rfl
+
+theorem prepWritable_eq (g : Glue) (e : σ) (ww : ω) :
+    (prepWritable ⟨g, e, ww⟩ : St σ ω) =
+      ⟨{ g with remainingTime := 0, isWritable := true, lastError := if g.lastError = .wantWrite then .none else g.lastError }, e, ww⟩ := rfl
+
+/-- `Receive(data, size)` (driver: readable): zero budget, `isReadable`, a cached WANT_READ forgotten; afterwards a
+stale error is reset when nothing was read and the handshake is finished -/
+theorem tie_ReceiveReadable (W : Net.World ω) (E : Engine σ) (buf : Bytes) (fuel size : Nat) (hR : ReadCorr W E buf fuel size)
+    (w : TWSt σ ω) :
+    ∃ a r, Gen.Tls_ReceiveReadable (tlsWorld W E buf) fuel size w
+      = (resOfOut (fun bs => (List.length bs : Int)) (receiveReadable CfgN W E w.s size).1,
+         ⟨(receiveReadable CfgN W E w.s size).2, a, r⟩) := by
+  obtain ⟨a, r, h⟩ := hR ⟨prepReadable w.s, w.ans, w.rx⟩
+  rcases w with ⟨⟨⟨le, ps, rt, ir, iw, dss, pe, wire, bw, ec⟩, e, ww⟩, ans, rx⟩
+  simp only [prepReadable_eq] at h
+  refine ⟨a, r, ?_⟩
+  cases le <;>
+    simp only [Gen.Tls_ReceiveReadable, receiveReadable, Gen.M.bind, tw_set_remainingTime, tw_set_isReadable,
+      tw_get_lastError, tw_set_lastError, codeOf, setTimeout, setLastError, errOf, prepReadable_eq] <;>
+    simp (disch := omega) only [if_pos, if_neg, if_true, if_false, reduceCtorEq] at h ⊢ <;>
+    (generalize tlsRead CfgN W E _ size = rd at h ⊢
+     (try simp only [Gen.M.bind])
+     rcases rd with ⟨o, s'⟩
+     rcases o with bs | x | m
+     · cases bs with
+       | nil => cases hi : E.initFinished s'.e <;> simp [h, resOfOut, Gen.M.pure, Gen.M.bind, hi, setLastError, errOf]
+       | cons b bs' =>
+         have hne : ¬ ((bs'.length : Int) + 1 = 0) := by omega
+         simp [h, resOfOut, Gen.M.pure, Gen.M.bind, hne, setLastError, errOf]
+     · simp [h, resOfOut, setLastError, errOf]
+     · simp [h, resOfOut, setLastError, errOf])
+
+/-- `SendSome(data, size)` (driver: writable): zero budget, `isWritable`, a cached WANT_WRITE forgotten -/
+theorem tie_SendSomeWritable (W : Net.World ω) (E : Engine σ) (buf : Bytes) (fuel : Nat) (hW : WriteCorr W E buf fuel)
+    (w : TWSt σ ω) :
+    ∃ a r, Gen.Tls_SendSomeWritable (tlsWorld W E buf) fuel 0 buf.length w
+      = (resOfOut (fun (n : Nat) => (n : Int)) (sendSomeWritable CfgN W E w.s buf).1,
+         ⟨(sendSomeWritable CfgN W E w.s buf).2, a, r⟩) := by
+  obtain ⟨a, r, h⟩ := hW ⟨prepWritable w.s, w.ans, w.rx⟩
+  rcases w with ⟨⟨⟨le, ps, rt, ir, iw, dss, pe, wire, bw, ec⟩, e, ww⟩, ans, rx⟩
+  simp only [prepWritable_eq] at h
+  refine ⟨a, r, ?_⟩
+  cases le <;>
+    simp only [Gen.Tls_SendSomeWritable, sendSomeWritable, Gen.M.bind, tw_set_remainingTime, tw_set_isWritable,
+      tw_get_lastError, tw_set_lastError, codeOf, setTimeout, setLastError, errOf, prepWritable_eq] <;>
+    simp (disch := omega) only [if_pos, if_neg, if_true, if_false, reduceCtorEq] at h ⊢ <;>
+    (generalize tlsWrite CfgN W E _ buf = rd at h ⊢
+     (try simp only [Gen.M.bind])
+     rcases rd with ⟨o, s'⟩
+     rcases o with n | x | m <;> simp [h, resOfOut, Gen.M.pure, Gen.M.bind, setLastError, errOf])
+
+/-- `DriverPending()`: nothing when the handshake is finished; otherwise "deemed writable" and one `Read` into a local
+buffer of 64 bytes, which must not deliver application data -/
+theorem tie_DriverPending (W : Net.World ω) (E : Engine σ) (buf : Bytes) (fuel : Nat) (hR : ReadCorr W E buf fuel 64)
+    (w : TWSt σ ω) :
+    ∃ a r, Gen.Tls_DriverPending (tlsWorld W E buf) fuel w
+      = (resOfOut id (driverPending CfgN W E w.s).1,
+         if E.initFinished w.s.e then w else ⟨(driverPending CfgN W E w.s).2, a, r⟩) := by
+  obtain ⟨a, r, h⟩ := hR ⟨prepWritable w.s, w.ans, w.rx⟩
+  rcases w with ⟨⟨⟨le, ps, rt, ir, iw, dss, pe, wire, bw, ec⟩, e, ww⟩, ans, rx⟩
+  have h64 : ((64 : Nat) : Int) = 64 := rfl
+  simp only [prepWritable_eq, h64] at h
+  refine ⟨a, r, ?_⟩
+  cases hf : E.initFinished e
+  · cases le <;>
+      simp only [Gen.Tls_DriverPending, driverPending, Gen.M.bind, tw_sslIsInitFinished, tw_set_remainingTime, tw_set_isWritable,
+        tw_get_lastError, tw_set_lastError, codeOf, setTimeout, setLastError, errOf, prepWritable_eq, hf,
+        Bool.false_eq_true, if_false, if_true, ne_eq, not_true_eq_false, not_false_eq_true, eq_self, reduceCtorEq] <;>
+      simp (disch := omega) only [if_pos, if_neg, if_true, if_false, reduceCtorEq, Bool.false_eq_true] at h ⊢ <;>
+      (generalize tlsRead CfgN W E _ 64 = rd at h ⊢
+       (try simp only [Gen.M.bind])
+       rcases rd with ⟨o, s'⟩
+       rcases o with bs | x | m
+       · cases bs with
+         | nil => simp [h, resOfOut, Gen.M.pure, Gen.M.bind, setLastError, errOf]
+         | cons b bs' =>
+           have hne : ¬ ((bs'.length : Int) + 1 = 0) := by omega
+           simp [h, resOfOut, Gen.M.pure, Gen.M.bind, Gen.M.throw, hne, setLastError, errOf, toThrown]
+       · simp [h, resOfOut, setLastError, errOf]
+       · simp [h, resOfOut, setLastError, errOf])
+  · simp [Gen.Tls_DriverPending, driverPending, Gen.M.bind, Gen.M.pure, hf, resOfOut]
+
 end SockModel.Props.C18Tie
